@@ -3,6 +3,7 @@ package components
 import (
 	"fmt"
 	"io"
+	"strconv"
 	"strings"
 
 	"github.com/preslavrachev/gomjml/mjml/constants"
@@ -51,6 +52,10 @@ func (c *MJGroupComponent) GetDefaultAttribute(name string) string {
 	case "vertical-align":
 		return defaultVerticalAlign
 	case "width":
+		// Like a column, a group without an explicit width takes an equal share of its section.
+		if n := c.GetNonRawSiblings(); n > 1 {
+			return strconv.FormatFloat(100.0/float64(n), 'f', -1, 64) + "%"
+		}
 		return "100%"
 	default:
 		return ""
